@@ -88,6 +88,24 @@ fn main() {
     }
     Ok(())
   });
+  w("cd_insert_after_dangling_reference_keeps_invariant", || {
+    use identity_core::convert::ToJson;
+    use identity_verification::VerificationMethod;
+    let did = "did:example:doc";
+    let mk = |frag: &str| VerificationMethod::from_json(&jwk_method(did, frag)).unwrap();
+    // an accepted starting document with a relationship reference whose target is not (yet) in the document
+    let start = format!(r#"{{"id":"{did}","authentication":["{did}#x"]}}"#);
+    for (scope, name) in [(MethodScope::VerificationRelationship(MethodRelationship::AssertionMethod), "assertionMethod"), (MethodScope::VerificationRelationship(MethodRelationship::Authentication), "authentication"), (MethodScope::VerificationMethod, "verificationMethod")] {
+      let mut d = match CoreDocument::from_json(&start) { Ok(d) => d, Err(_) => return Ok(()) };
+      let r = d.insert_method(mk("x"), scope);
+      let json = d.to_json().unwrap();
+      match CoreDocument::from_json(&json) {
+        Ok(back) => { if back != d { return Err(format!("after insert_method(#x, {name}) [{}] the document does not round-trip to an equal document", if r.is_ok() { "accepted" } else { "refused" })); } }
+        Err(e) => return Err(format!("after insert_method(#x, {name}) [{}] the document no longer deserialises: {e}; json = {json}", if r.is_ok() { "accepted" } else { "refused" })),
+      }
+    }
+    Ok(())
+  });
   w("cd_attach_detach_exact", || {
     for (rel, name) in RELS { for (rel2, name2) in RELS {
       let mut d = doc();
